@@ -86,7 +86,7 @@ def install_contracts(ex):
 class Zone:
     pass
 
-def build_zone(ex, st, N, T, pfx="z", hints=True, second_half=True):
+def build_zone(ex, st, N, T, pfx="z", hints=True, second_half=True, spacing=None):
     """allocate a TimeZoneInfo object with N transitions and T types, all contents symbolic under WF"""
     mod = module()
     z = Zone(); z.N = N; z.T = T
@@ -154,8 +154,9 @@ def build_zone(ex, st, N, T, pfx="z", hints=True, second_half=True):
     z.pre_off = [off_of(z.default)] + [off_of(t) for t in z.ty]      # offset in force before transition i (index i), after it (index i+1)
     # C02's stated premise ("offset changes farther apart than the sum of their sizes, as in all real data")
     absd = lambda i: ite(ge(sub(z.pre_off[i + 1], z.pre_off[i]), 0), sub(z.pre_off[i + 1], z.pre_off[i]), sub(z.pre_off[i], z.pre_off[i + 1]))
+    if spacing is None: spacing = True
     for i in range(1, N):
-        wf.append(gt(sub(z.unix[i], z.unix[i - 1]), add(absd(i - 1), absd(i))))
+        if spacing: wf.append(gt(sub(z.unix[i], z.unix[i - 1]), add(absd(i - 1), absd(i))))
     ex.assume(st, and_(*wf))
     return z
 
